@@ -37,7 +37,7 @@ Proof. intros l a b Ha Hb E. subst b. rewrite Ha in Hb. discriminate Hb. Qed.
 Lemma forgot_select : forall m x k fid, x_forgot x k -> x_forgot (dd_select m x fid) k.
 Proof.
   intros m x k fid H. pose proof H as [Hk Hs]. unfold dd_select. destruct (dd_set x) as [l|] eqn:El; [|exact H].
-  destruct (m && dd_hasdict x && existsb (Z.eqb fid) l) eqn:Ec; [|exact H].
+  destruct (m && dd_selectable x && existsb (Z.eqb fid) l) eqn:Ec; [|exact H].
   apply andb_true_iff in Ec. destruct Ec as [_ Ec].
   split; cbn [dd_kind dd_set].
   - intro E. injection E as E. exact (existsb_eqb_neq l k fid (Hs l eq_refl) Ec E).
@@ -115,7 +115,9 @@ Proof.
     destruct Hf as [Hk Hs]. split; [discriminate | exact Hs].
   - (* ODRefPrefix *) revert E. unfold dctx_refprefix. destruct (negb _); intro E; injection E as <- _; [exact Hf|].
     destruct Hf as [Hk Hs]. split; [destruct (k0 =? 0); discriminate | exact Hs].
-  - (* ODFx *) unfold dctx_fx, dctx_fx_gen. apply d_forgot_intro. apply (forgot_stream_header _ _ _ k Hf).
+  - (* ODFx *) unfold dctx_fx, dctx_fx_gen. cbv zeta. destruct (_ && _ && _); apply d_forgot_intro.
+    + unfold dd_fx_pre, dd_stale_select. apply forgot_select, forgot_with_last, Hf.
+    + apply (forgot_stream_header _ _ _ k Hf).
   - (* ODDec *) revert E. unfold dctx_dec_stream, dctx_dec_stream_gen.
     pose proof (forgot_stream_header (get_d w o0) (d_format (get_d w o0) =? 0) (frame_fid f) k Hf) as [A _].
     destruct (dd_stream_header false (get_d w o0) (d_format (get_d w o0) =? 0) (frame_fid f)) as [x u]. cbn [fst] in A.
@@ -236,3 +238,100 @@ Proof.
   exists (put_d world_new false r3_multi1), false, z_ZSTD_reset_parameters.
   split; [vm_compute; reflexivity|]. split; [reflexivity|]. vm_compute. discriminate.
 Qed.
+
+(* ------------------------------------------------------------------ a dictionary LOADED into the context stays in force
+   whatever frames are decoded, also with ZSTD_d_refMultipleDDicts and a non-empty set of referenced DDicts (fix d0ddbff;
+   round 2 could only prove this without a set: the selection used to replace - and free - the loaded dictionary) *)
+Definition x_loaded (x : ddicts) (k : Z) : Prop := dd_uses x = 2 /\ dd_kind x = DK_local k.
+Definition d_loaded (d : dctx) (k : Z) : Prop := x_loaded (d_dict d) k.
+
+Lemma select_keeps_loaded : forall m x fid k, x_loaded x k -> dd_select m x fid = x.
+Proof.
+  intros m x fid k [Hu Hk]. unfold dd_select, dd_selectable. rewrite Hk. destruct (dd_set x); [|reflexivity].
+  rewrite andb_false_r. rewrite andb_false_r. reflexivity.
+Qed.
+
+Lemma loaded_with_last : forall x k fid, x_loaded x k -> x_loaded (dd_with_last x fid) k.
+Proof. intros x k fid H. exact H. Qed.
+
+Lemma loaded_stream_header : forall d fmt fid k, d_loaded d k ->
+  x_loaded (fst (dd_stream_header false d fmt fid)) k /\ (fmt = true -> snd (dd_stream_header false d fmt fid) = DK_local k).
+Proof.
+  intros d fmt fid k H. pose proof H as [Hu Hk]. unfold dd_stream_header, dd_stale_select. destruct fmt; cbn [negb].
+  - rewrite (select_keeps_loaded _ _ fid k (loaded_with_last _ k fid H)).
+    rewrite dd_get_indef by exact Hu. cbn [fst snd dd_with_last dd_kind]. split; [exact H | intros _; exact Hk].
+  - cbn [fst snd]. split; [exact H | intro E; discriminate E].
+Qed.
+
+Lemma loaded_oneshot_frames : forall st m fs x start k, x_loaded x k ->
+  x_loaded (fst (dd_oneshot_frames st m x start fs)) k.
+Proof.
+  induction fs as [|f fs IH]; intros x start k H; cbn [dd_oneshot_frames fst]; [exact H|].
+  unfold dd_oneshot_frame. rewrite (select_keeps_loaded m _ (frame_fid f) k (loaded_with_last x k (frame_fid f) H)).
+  destruct (dkind_matches _ f); [apply IH|]; apply loaded_with_last; exact H.
+Qed.
+
+Lemma d_loaded_step : forall w x o k, d_drop o x = false -> d_loaded (get_d w o) k -> d_loaded (get_d (fst (step w x)) o) k.
+Proof.
+  intros w x o k Ht Hh. unfold d_drop in Ht. apply Bool.orb_false_iff in Ht. destruct Ht as [Ha Ht].
+  destruct x; cbn [step d_attach touches_dparams] in *;
+    repeat match goal with |- context [let '(_, _) := ?e in _] => destruct e eqn:?E end;
+    cbn [fst]; rewrite ?get_d_put_c, ?get_d_put_p; try exact Hh; try discriminate Ha; try discriminate Ht;
+    try (revert Ha Ht; destruct (Bool.eqb_spec o o0) as [->|Hne]; intros Ha Ht;
+         [ try discriminate Ha; try discriminate Ht; rewrite get_put_d_same | rewrite get_put_d_other by assumption; exact Hh ]).
+  - unfold dctx_begin, dctx_begin_gen. cbn [dd_stale_select].
+    destruct (d_format (get_d w o0) =? 1); [exact (proj1 (loaded_stream_header _ true 0 k Hh)) | exact Hh].
+  - unfold dctx_end, dctx_end_gen.
+    destruct (d_format (get_d w o0) =? 1); [exact Hh | exact (proj1 (loaded_stream_header _ true 0 k Hh))].
+  - unfold dctx_bad, dctx_bad_gen. exact (proj1 (loaded_stream_header _ false 0 k Hh)).
+  - unfold dctx_frame, dctx_frame_gen. exact (proj1 (loaded_stream_header _ true 0 k Hh)).
+  - unfold dctx_fx, dctx_fx_gen. cbv zeta. destruct (_ && _ && _).
+    + unfold dd_fx_pre, dd_stale_select. cbn [d_dict dctx_set_stage dctx_set_dict].
+      rewrite (select_keeps_loaded _ _ _ k (loaded_with_last _ k _ Hh)). exact Hh.
+    + exact (proj1 (loaded_stream_header _ _ _ k Hh)).
+  - revert E. unfold dctx_dec_stream, dctx_dec_stream_gen.
+    pose proof (proj1 (loaded_stream_header (get_d w o0) (d_format (get_d w o0) =? 0) (frame_fid f) k Hh)) as A.
+    destruct (dd_stream_header false (get_d w o0) (d_format (get_d w o0) =? 0) (frame_fid f)) as [x u]. cbn [fst] in A.
+    intro E; injection E as <- _. exact A.
+  - revert E. unfold dctx_dec_oneshot, dctx_dec_oneshot_gen. pose proof Hh as [Hu Hk].
+    rewrite (dd_get_indef _ Hu). cbv beta iota.
+    destruct (negb _); [intro E; injection E as <- _; exact Hh|].
+    pose proof (loaded_oneshot_frames false (d_refMultipleDDicts (get_d w o0) =? 1) fs (d_dict (get_d w o0)) (dd_kind (d_dict (get_d w o0))) k Hh) as B.
+    destruct (dd_oneshot_frames _ _ _ _ fs) as [x1 ok]. cbn [fst] in B.
+    intro E; injection E as <- _. exact B.
+  - revert E. unfold dctx_dec_using, dctx_dec_using_gen.
+    destruct (negb _); [intro E; injection E as <- _; exact Hh|].
+    unfold dd_oneshot_frame. rewrite (select_keeps_loaded _ _ (frame_fid f) k (loaded_with_last _ k (frame_fid f) Hh)).
+    intro E; injection E as <- _. exact Hh.
+  - revert E. unfold dctx_dec_raw, dctx_dec_raw_gen.
+    destruct (negb _); [intro E; injection E as <- _; exact Hh|].
+    cbv zeta. rewrite (select_keeps_loaded _ _ (frame_fid f) k (loaded_with_last _ k (frame_fid f) Hh)).
+    intro E; injection E as <- _. exact Hh.
+Qed.
+
+Lemma d_loaded_sticky_l : forall ops w o k,
+  Forall (fun x => d_drop o x = false) ops -> d_loaded (get_d w o) k ->
+  d_loaded (get_d (run w ops) o) k /\ forall fid, d_next_use (get_d (run w ops) o) fid = DK_local k.
+Proof.
+  induction ops as [|x ops IH]; intros w o k Hf Hh.
+  - split; [exact Hh|]. intro fid. unfold d_next_use. apply (loaded_stream_header _ true fid k Hh). reflexivity.
+  - inversion Hf; subst. unfold run. cbn [fold_left]. fold (run (fst (step w x)) ops).
+    apply IH; [assumption | apply d_loaded_step; assumption].
+Qed.
+
+(* loading installs that state whatever is referenced *)
+Lemma d_load_gives_loaded : forall d k, d_stage d = S_init -> k <> 0 -> d_loaded (fst (dctx_load d k)) k.
+Proof.
+  intros d k Hs Hk. unfold dctx_load. rewrite Hs. cbn [stage_is_init negb]. destruct (Z.eqb_spec k 0); [contradiction|].
+  split; reflexivity.
+Qed.
+
+(* the finding, on the code as it was: refMultipleDDicts = 1, refDDict(1), loadDictionary(2), a frame of dictionary 1 decoded:
+   the loaded dictionary was gone *)
+Definition r3_loaded2 : dctx := fst (dctx_load r3_multi1 2).
+Lemma selection_destroyed_loaded_dictionary_refuted_l :
+  dd_kind (dd_select_any true (dd_with_last (d_dict r3_loaded2) 1) 1) = DK_ref 1
+  /\ dd_kind (dd_select true (dd_with_last (d_dict r3_loaded2) 1) 1) = DK_local 2
+  /\ d_loaded r3_loaded2 2 /\ dd_set (d_dict r3_loaded2) = Some [1]
+  /\ snd (dctx_dec_stream (fst (dctx_dec_stream r3_loaded2 1)) 2) = Ok.
+Proof. repeat split; vm_compute; reflexivity. Qed.
